@@ -7,7 +7,10 @@ RULE = ('real: generated scenarios on real pools in watchdogged child processes:
         'inside a task that swallows BaseException for 2.5 s, 0-8 queued jobs, 0-3 '
         'results delivered before the call; action in {terminate, terminate twice, '
         'del pool + gc, terminate_job(pid), SIGTERM sent to a worker while a marker '
-        'file proves it is inside its task}. Non-trivial: >=1 worker inside task '
+        'file proves it is inside its task}; optionally 2-3 idle workers are told '
+        'to exit just before (supervisor busy replacing them, slow on_process_up), '
+        'or the call lands inside a replacement\'s 1 s Process.start() (listed in '
+        'the pool, no process yet). Non-trivial: >=1 worker inside task '
         'code at the moment of the call. Distinct = canonical JSON of the case.')
 ASSUMPTIONS = [
     'terminate() with an in-flight job takes ~7 s by design (result handler '
